@@ -73,11 +73,10 @@ Fixpoint hist_steps (fixed : bool) (opt : options) (links : list (path * path)) 
 Definition hist_ok (fixed : bool) (c : hist_case) : bool :=
   let '((w, a, s), links, d0, scs) := c in
   hist_steps fixed (mkOpts w a s) links (init d0) scs.
-(* the pinned code is [step] = [step_gen false]; [check_hist_fixed] is used to
-   evaluate fixes/C17-failed-rebuild-delete.diff (and becomes [check_hist] if
-   that repair is committed) *)
-Definition check_hist := mismatches (hist_ok false).
-Definition check_hist_fixed := mismatches (hist_ok true).
+(* the current code is [step] = [step_gen true] (after /repo commit d19e8cb);
+   [check_hist_before_fix] is the model of the code before that commit *)
+Definition check_hist := mismatches (hist_ok true).
+Definition check_hist_before_fix := mismatches (hist_ok false).
 
 (* the specification predicates on the observed trees (own = physical files
    written by earlier rebuilds of the history).  For inputs the part that
